@@ -37,7 +37,7 @@ Time is exact (unit `1/L` ms, `L = lcm(1..255)`).
 
 * `C18_order_step` — **the order transition** (end of pattern / jump row → next order): from any
   `nord`, the head of the scan's `while (42)` (skipping invalid orders and `0xfe` markers, the `0xff`
-  end marker, wrap to `mod->rst` or to the entry point, never leaving through the
+  end marker, wrap to `mod->rst` or — also when the end marker lies below it — to the entry point, never leaving through the
   `orders_since_last_valid` sanity exit) arrives at the order-processing step of the same playable
   order that the player's `next_order` returns.
 * `C18_pattern_step` — one whole pattern incl. **the jump row** and the last row: scan (`scanRows`)
@@ -71,10 +71,12 @@ Time is exact (unit `1/L` ms, `L = lcm(1..255)`).
 `ModWF` (decidable: `modWFb`; evaluated by the driver on every generated module as part of `seqHypB`):
 patterns of 1..256 rows (so that the scan's 512-row runaway guard, which is in the model with the code's
 reset points, never fires: `C18_row_guard_idle`), speed parameters ≥ 1, tempo parameters ≥ 20, initial speed ≥ 1 / tempo ≥ 20, at most
-256 orders, restart position inside the order list; in marker formats (S3M / IT) pattern numbers 0xfe /
-0xff are never real patterns and an end marker in the order list excludes a restart position — with a
-restart position the model's `next_order` and the scan restart at different orders when an end marker
-lies below a secondary entry point; no core loader produces that combination.
+256 orders, restart position inside the order list; in marker formats (S3M / IT, and MOD / XM under a
+player mode that sets `QUIRK_MARKER`) pattern numbers 0xfe / 0xff are never real patterns.  A restart
+position together with end markers is inside the class since libxmp 4bf9f85: the scan follows
+`next_order`'s rule that an end marker met below the entry point restarts at the entry point
+(`end_marker_ord` = `ScanSt.endMark`, `restartOrd`); before that fix the two disagreed (found by this
+check under `XMP_PLAYER_MODE` 4 / 5 / 6 / 9 on XM modules; regression input in corpus/C18).
 IT row delay (`SEx`, `Fx.rowdelay`: the row is entered `1 + x` times, each for `speed` ticks at the
 *running* speed) is in the model of both interpreters and in its tie to the C, and
 `C18_row_accounting_rowdelay` states the scan's accounting for it; but `Fx.WF` / `ModWF` exclude it: the
@@ -262,18 +264,18 @@ the end-marker exit — at the processing of a playable order `o` (`procValid`),
 agrees with the scan's. -/
 theorem C18_order_step (m : LinMod) (ep chain o1 : Nat) (si : SeqInfo) (ctl : List Nat) (hw : ModWF m)
     (hep : ep < m.len) (hstart : SkipRange m ep o1) (ho1 : isPlay m o1) (hepo1 : ep ≤ o1)
-    (fuel nord : Nat) (st : ScanSt) (hosv : st.osv = 0)
+    (fuel nord : Nat) (st : ScanSt) (hosv : st.osv = 0) (hem : st.endMark = none)
     (hne : scanOrders m ep chain fuel nord st ≠ .noFuel)
     (hsi : si.ep = ep)
-    (hU : (isPlay m m.rst ∧ st.ctl.getD m.rst 0xff = chain) ↔ (isPlay m m.rst ∧ ctl.getD m.rst 0xff = si.seq))
-    (hUlow : ∀ x, isEndMark m x → x < ep → ¬ (isPlay m m.rst ∧ st.ctl.getD m.rst 0xff = chain)) :
+    (hU : (isPlay m m.rst ∧ st.ctl.getD m.rst 0xff = chain) ↔ (isPlay m m.rst ∧ ctl.getD m.rst 0xff = si.seq)) :
     ∃ o fuel' k c', isPlay m o ∧ fuel' < fuel ∧ CtlKeep m ep chain st.ctl c' ∧
       scanOrders m ep chain fuel nord st = procValid m ep chain fuel' o { st with osv := k, ctl := c' } ∧
       nextOrder m si ctl (orderFuel m) nord = some o := by
-  obtain ⟨o, fuel', k, c', h1, h2, h3, h4, h5⟩ := scan_head m ep chain o1 hw hep hstart ho1 hepo1 fuel nord st hosv hne
+  obtain ⟨o, fuel', k, c', h1, h2, h3, h4, h5⟩ :=
+    scan_head m ep chain o1 hw hep hstart ho1 hepo1 fuel nord st hosv hem hne
   exact ⟨o, fuel', k, c', h1, h2, h3, h4,
     play_target m si ctl o1 _ hw (by rw [hsi]; exact hep) (by rw [hsi]; exact hstart) ho1 (by rw [hsi]; exact hepo1)
-      hU (by rw [hsi]; exact hUlow) nord o h5⟩
+      hU nord o (by rw [hsi]; exact h5)⟩
 
 /-! instance (needs `exM3`, defined below): see `exOrderStep` after the definition of `exM3`. -/
 
@@ -399,9 +401,7 @@ theorem exOrderStep : ∃ o, isPlay exM3 o ∧
     { seq := 1, ep := 1, endOrd := 2, endRow := 0, num := 1 } exSt3.ctl (modWFb_sound exM3 (by decide)) (by decide)
     (by intro o h1 h2; have : o = 1 := by omega
         subst this; decide)
-    (by decide) (by decide) 20 3 exSt3 rfl (Outcome.ne_noFuel _ (by decide +kernel)) rfl Iff.rfl
-    (by intro x hx hlt; have : x = 0 := by omega
-        subst this; exact absurd hx (by decide))
+    (by decide) (by decide) 20 3 exSt3 rfl rfl (Outcome.ne_noFuel _ (by decide +kernel)) rfl Iff.rfl
   exact ⟨o, h1, h5⟩
 
 /-- the reported duration (ms, `int`) is the rendered time rounded down: within 1 ms — less than one
@@ -509,6 +509,15 @@ example := C18_row_guard_idle_all exM3 (modWFb_sound exM3 (by decide)) (by decid
 
 /-! ## all sequences of `libxmp_scan_sequences` -/
 
+/-- a marker-format module with a restart position: sequence 1 (entry point 2) plays orders 2 and 3 (the
+restart position), jumps to order 1 — an end marker *below* its entry point — and restarts at the entry
+point, as `next_order` does (libxmp 4bf9f85; the scan used to restart at `mod->rst` = 3 here) -/
+def exM4 : LinMod :=
+  { xxo := [0, 0xff, 1, 2], pats := [[.none], [.none], [.jump 1]], rst := 3, spd := 2, bpm := 125, marker := true }
+
+example : ((scanSequences exM4).seqs.getD 1 default).ep = 2 ∧ ((scanSequences exM4).seqs.getD 1 default).res.endOrd = 2 := by
+  decide +kernel
+
 /-- **C18, the scan against the player, for every sequence of a module.**  For every module of the
 class `ModWF` that `libxmp_scan_sequences` accepts and every sequence `k` it finds, with the player
 environment `sc.env m k` built from the final `sequence_control` / `xxo_info` (as `xmp_start_player` /
@@ -571,6 +580,8 @@ example : ModWF exM3 ∧ (scanSequences exM3).ok = true ∧ (scanSequences exM3)
   ⟨modWFb_sound exM3 (by decide), by decide +kernel, by decide +kernel⟩
 
 example := C18_scan_eq_play exM3 (modWFb_sound exM3 (by decide)) (by decide +kernel) 1 (by decide +kernel)
+
+example := C18_scan_eq_play exM4 (modWFb_sound exM4 (by decide)) (by decide +kernel) 1 (by decide +kernel)
 
 example : ∃ F s0 pF, exE2.start = some s0 ∧ (∀ fuel, F.length + 1 ≤ fuel → exE2.run fuel = F) ∧
     (exE2.render pF).loopCount = 1 := by
